@@ -35,6 +35,7 @@ import (
 	gerrors "rcproxy/core/pkg/errors"
 	"rcproxy/core/pkg/logging"
 	"rcproxy/core/pkg/utils"
+	"rcproxy/core/vhook"
 )
 
 type eventloop struct {
@@ -416,6 +417,7 @@ func (el *eventloop) ticker() {
 	el.nextTicker = now.Add(time.Second)
 
 	if EngineGlobal.ClusterNodes.serverChanged {
+		vhook.Point("ticker.afterReadChanged")
 		logging.Infof("[server changed] start load new server, old redis nodes: %+v", EngineGlobal.ProxyAddrs)
 
 		for k, v := range EngineGlobal.ProxyPool {
@@ -452,6 +454,7 @@ func (el *eventloop) ticker() {
 			EngineGlobal.ProxyAddrs = append(EngineGlobal.ProxyAddrs, k)
 		}
 
+		vhook.Point("ticker.beforeClearChanged")
 		EngineGlobal.ClusterNodes.serverChanged = false
 		logging.Infof("[server changed] end load new server, cost: %s, new redis nodes: %+v", time.Since(now), EngineGlobal.ProxyAddrs)
 	}
